@@ -388,7 +388,30 @@ theorem pwTitle_written_terminated (garbage src : Bytes) (n : Nat) :
   apply hasNul_append_right
   simp [hasNul]
 
-/-- The witness behind finding F15: the ProWizard loader matches, the detector leaves
+/-- with the repaired `pw_check` (`memset(title, 0, sizeof(title))` before every detector — generated
+fact `Gen.pwTitleInitAll`) a detector that writes nothing leaves a terminated (empty) title -/
+theorem pwTitle_unwritten_terminated (garbage : Bytes) (h : Gen.pwTitleInitAll = true) :
+    hasNul ((overlayOpt none (pwTitleInit garbage)).take Gen.pwTitleCopy) = true := by
+  simp only [overlayOpt, pwTitleInit, h, if_true]
+  decide
+
+/-- hence `PwTitleTerminated` holds whenever every detector either leaves the title alone or
+sets it through `pw_read_title` (what all 43 detectors of the real table do) -/
+theorem pwTitleTerminated_of_init (e : Env) (hinit : Gen.pwTitleInitAll = true)
+    (hw : ∀ st h w, e.pw st = some h → h.title = some w → ∃ src n, w = pwReadTitle src n) :
+    PwTitleTerminated e := by
+  intro st h hh
+  refine ⟨?_, Nat.le_trans (List.length_take_le _ _) (by decide)⟩
+  cases ht : h.title with
+  | none => exact pwTitle_unwritten_terminated _ hinit
+  | some w =>
+    obtain ⟨src, n, rfl⟩ := hw st h w hh ht
+    cases src with
+    | none => simp [overlayOpt, overlay, pwReadTitle, hasNul, Gen.pwTitleCopy]
+    | some b => exact pwTitle_written_terminated _ b n
+
+/-- The witness behind finding F15 (repaired in /repo by `fix: pw_check reported uninitialised stack bytes as the
+module title`): the ProWizard loader matches, the detector leaves
 `title[21]` untouched, the stack garbage holds no NUL, the caller's `info->name` holds no NUL
 beyond its first byte.  Unless `pw_check` initialises `title` (generated fact
 `Gen.pwTitleInitFirst`), the reported title is NOT terminated inside its 64 bytes. -/
@@ -521,17 +544,16 @@ theorem C11_no_side_effect (e : Env) (decr : Stream → Decr) (id : Nat) (data :
   | false => simpa [openSource] using h
   | true =>
     simp only [openSource, testDepacks, if_true]
-    generalize decr _ = d
+    generalize decr { data := data } = d
     cases d <;> simpa [applyDecr, closeInternal] using h
 
 /-- and `xmp_test_module(path, …)` closes the `FILE` it opened itself exactly once, on every path
 (not packed, unpacked, depack failure): no descriptor is left behind. -/
 theorem C11_no_leak (e : Env) (decr : Stream → Decr) (id : Nat) (data : Bytes) (info : Option Info) (w : World) :
     (xmpTest e decr (.path (some (false, true, id, data))) info w).world.closed = id :: w.closed := by
-  unfold xmpTest
-  simp only [openSource, testDepacks, if_true]
-  generalize decr _ = d
-  cases d <;> simp [applyDecr, closeInternal]
+  rw [xmpTest_ok e decr _ info w (.file id false) { data := data } rfl]
+  simp only [testDepacks, if_true]
+  cases decr { data := data } <;> simp [applyDecr, testAfter, closeInternal]
 
 /-- memory and callback sources never close anything -/
 theorem C11_no_close_mem_cb (e : Env) (decr : Stream → Decr) (info : Option Info) (w : World)
@@ -539,11 +561,15 @@ theorem C11_no_close_mem_cb (e : Env) (decr : Stream → Decr) (info : Option In
     (xmpTest e decr (.memory data n) info w).world = w ∧
     (xmpTest e decr (.callbacks ok data) info w).world = w := by
   constructor
-  · unfold xmpTest
-    simp only [openSource, testDepacks]
-    split <;> simp [closeInternal]
-  · unfold xmpTest
-    cases ok <;> simp [openSource, testDepacks, closeInternal]
+  · by_cases hn : n ≤ 0
+    · rw [xmpTest_open_error e decr _ info w eInvalid (by simp [openSource, hn])]
+    · rw [xmpTest_ok e decr _ info w .mem { data := data.take n.toNat } (by simp [openSource, hn])]
+      simp [testDepacks, testAfter, closeInternal]
+  · cases ok with
+    | false => rw [xmpTest_open_error e decr _ info w eSystem (by simp [openSource])]
+    | true =>
+      rw [xmpTest_ok e decr _ info w .cb { data := data } (by simp [openSource])]
+      simp [testDepacks, testAfter, closeInternal]
 
 /-! ## Non-vacuity: a table satisfying every hypothesis, and the model run on it -/
 
@@ -570,7 +596,10 @@ theorem exLoader_premise (k : UInt8) (nm : Bytes) (s : Stream) :
   · simp [exLoader]
   · intro w
     cases w <;> simp [exLoader, readTitle, Stream.read]
-    split <;> rfl
+
+theorem exLoader_nonpos (k : UInt8) (nm : Bytes) (s : Stream) (w : Bool) :
+    ((exLoader k nm).test s w).rc ≤ 0 := by
+  cases w <;> simp only [exLoader] <;> (by_cases hh : s.data.head? = some k <;> simp [hh])
 
 example : Premise exEnv.loaders ∧ NonPos exEnv.loaders ∧ PrepOk exEnv.loaders := by
   refine ⟨?_, ?_, ?_⟩
@@ -579,7 +608,7 @@ example : Premise exEnv.loaders ∧ NonPos exEnv.loaders ∧ PrepOk exEnv.loader
     rcases hl with rfl | rfl <;> exact exLoader_premise _ _ s
   · intro l hl s w
     simp only [exEnv, List.mem_cons, List.mem_nil_iff, or_false] at hl
-    rcases hl with rfl | rfl <;> cases w <;> simp only [exLoader] <;> split <;> decide
+    rcases hl with rfl | rfl <;> exact exLoader_nonpos _ _ s w
   · intro l hl s
     simp only [exEnv, List.mem_cons, List.mem_nil_iff, or_false] at hl
     rcases hl with rfl | rfl <;> simp [exLoader, Gen.prepareScanReturns]
